@@ -76,7 +76,8 @@ def opStochW (a : Args) : Except String String := do
   let pl ← parsePlan (F := F) a
   let nu := l.map (Stoch.planNumer pl)
   let ws := l.map (Stoch.stochWeight pl (look g))
-  pure s!"ok numer={showList (showOpt sh) nu} w={showList (showOpt sh) ws} m={showOpt sh (Stoch.stochIptw pl (look g) l)}"
+  let hw := l.map (Stoch.haw pl (look g))
+  pure s!"ok numer={showList (showOpt sh) nu} w={showList (showOpt sh) ws} haw={showList (showOpt sh) hw} m={showOpt sh (Stoch.stochIptw pl (look g) l)}"
 
 /-- IPMW: `obs=` one `;`-separated list per variable; `d=`/`n=` likewise with `_` = NaN prediction -/
 def opIpmw (a : Args) : Except String String := do
